@@ -16,6 +16,7 @@
 #include "llvm/Support/raw_ostream.h"
 #include "llvm/Support/JSON.h"
 #include <map>
+#include <functional>
 using namespace llvm;
 
 static std::map<const Value *, std::string> Names;
@@ -106,6 +107,32 @@ int main(int argc, char **argv) {
       }
       else if (isa<ConstantPointerNull>(In) || isa<Function>(In) || isa<ConstantInt>(In) || isa<GlobalVariable>(In)) g["init"] = opnd(In, DL);
       g["zeroinit"] = In->isNullValue();
+      // constant integer tables (arrays of integers or of structs of integers), bounded: rows of field values
+      if (G.isConstant()) {
+        std::function<bool(const Constant *, json::Array &)> flat = [&](const Constant *C, json::Array &out) -> bool {
+          if (auto *CI = dyn_cast<ConstantInt>(C)) { if (CI->getBitWidth() > 64) return false; out.push_back((int64_t)CI->getZExtValue()); return true; }
+          if (isa<ConstantAggregateZero>(C)) {
+            if (auto *ST = dyn_cast<StructType>(C->getType())) { for (unsigned k = 0; k < ST->getNumElements(); k++) { if (!ST->getElementType(k)->isIntegerTy()) return false; out.push_back((int64_t)0); } return true; }
+            if (auto *AT2 = dyn_cast<ArrayType>(C->getType())) { if (!AT2->getElementType()->isIntegerTy() || AT2->getNumElements() > 64) return false; for (uint64_t k = 0; k < AT2->getNumElements(); k++) out.push_back((int64_t)0); return true; }
+            return false;
+          }
+          if (auto *CS = dyn_cast<ConstantStruct>(C)) { for (unsigned k = 0; k < CS->getNumOperands(); k++) if (!flat(CS->getOperand(k), out)) return false; return true; }
+          if (auto *CD = dyn_cast<ConstantDataSequential>(C)) { if (!CD->getElementType()->isIntegerTy() || CD->getNumElements() > 64) return false; for (unsigned k = 0; k < CD->getNumElements(); k++) out.push_back((int64_t)CD->getElementAsInteger(k)); return true; }
+          return false;
+        };
+        if (auto *AT = dyn_cast<ArrayType>(G.getValueType())) {
+          if (AT->getNumElements() <= 8192 && !(isa<ConstantDataArray>(In) && cast<ConstantDataArray>(In)->isString())) {
+            json::Array rows; bool ok = true;
+            if (auto *CA = dyn_cast<ConstantArray>(In)) {
+              for (unsigned k = 0; ok && k < CA->getNumOperands(); k++) { json::Array row; ok = flat(CA->getOperand(k), row); rows.push_back(std::move(row)); }
+            } else if (auto *CD = dyn_cast<ConstantDataArray>(In)) {
+              if (CD->getElementType()->isIntegerTy()) for (unsigned k = 0; k < CD->getNumElements(); k++) { json::Array row; row.push_back((int64_t)CD->getElementAsInteger(k)); rows.push_back(std::move(row)); }
+              else ok = false;
+            } else ok = false;
+            if (ok && !rows.empty()) g["table"] = std::move(rows);
+          }
+        }
+      }
     }
     SmallVector<DIGlobalVariableExpression *, 1> GVs; G.getDebugInfo(GVs);
     if (!GVs.empty()) { g["line"] = (int64_t)GVs[0]->getVariable()->getLine(); g["file"] = GVs[0]->getVariable()->getFilename().str(); g["srcname"] = GVs[0]->getVariable()->getName().str(); }
